@@ -338,6 +338,30 @@ def gen_dd(r, k, tier):
             "epsr": r.choice([1.0, 1.0, 2.0, 1.5, 3.25]), "unit": r.choice(["int", "int", "1/cm", "eV"])}
 
 
+def gen_ddm(r, k, tier):
+    """whole coupling matrix set from the geometry: permittivity, refusal distance, earlier couplings and a diagonal"""
+    def dy(lo, hi):
+        return r.randint(lo * 4, hi * 4) / 4.0
+    N = r.choice([2, 3, 3, 4, 5])
+    via = r.choice(["set_coupling_by_dipole_dipole", "set_coupling_by_dipole_dipole", "calculate_resonance_coupling"])
+    # calculate_resonance_coupling hands over the permittivity only: the refusal distance is the default one
+    delta = r.choice([1.0e-5, 2.0, 4.0]) if via == "set_coupling_by_dipole_dipole" else 1.0e-5
+    span = 6 if delta < 1.0 else 3          # some pairs closer than a large refusal distance
+    pos = []
+    while len(pos) < N:
+        p = [dy(-span, span) for _ in range(3)]
+        if all(sum((p[i] - q[i]) ** 2 for i in range(3)) >= 0.25 for q in pos):
+            pos.append(p)
+    J0 = [[0.0] * N for _ in range(N)]
+    if r.random() < 0.6:
+        for a in range(N):
+            J0[a][a] = float(r.randint(-3, 3))
+            for b in range(a + 1, N):
+                J0[a][b] = J0[b][a] = float(r.randint(-5, 5))
+    return {"kind": "ddm", "pos": pos, "dip": [[dy(-6, 6) for _ in range(3)] for _ in range(N)],
+            "epsr": r.choice([1.0, 2.0, 1.5, 3.25, 0.5]), "delta": delta, "J0": J0, "via": via}
+
+
 # ------------------------------------------------------------------ Coq items
 def nl(xs):
     return cm.clist(["%d%%nat" % int(x) for x in xs])
@@ -415,7 +439,19 @@ Definition dd_agrees (c : list Q * list Q * list Q * list Q * Q * Q * Q * Q * Q 
   Qle_bool (Qabs (this m - out)) (tol * Qabs out).
 """
 
-IMPORTS = ("From Coq Require Import Qcanon.\nFrom QV Require Import Base.Alg Base.Sums Base.Mat Base.Util Model.C03 "
+DDM_DEF = """
+Definition qm (l : list (list Q)) : nat -> nat -> Qc := fun i j => Q2Qc (nth j (nth i l []) 0%Q).
+Definition bm (l : list (list bool)) : nat -> nat -> bool := fun i j => nth j (nth i l []) false.
+Definition ddm_agrees (c : nat * list (list Q) * list (list Q) * list (list Q) * list (list bool) * Q * Q * Q *
+                           list (list Q) * list (list Q) * Q) : bool :=
+  let '(N, pos, dip, RR, cl, pi, eps0, epsr, J0, out, tol) := c in
+  let M := dd_matrix Qc (Q2Qc 0) (Q2Qc 1) Qcplus Qcmult Qcminus Qcdiv (qm pos) (qm dip) (qm RR) (bm cl)
+                     (Q2Qc pi) (Q2Qc eps0) (qm J0) (Q2Qc epsr) in
+  let idx := seq 0 N in
+  forallb (fun a => forallb (fun b => Qle_bool (Qabs (this (M a b) - nth b (nth a out []) 0%Q)) tol) idx) idx.
+"""
+
+IMPORTS = ("From Coq Require Import Qcanon.\nFrom QV Require Import Base.Alg Base.Sums Base.Mat Base.Util Model.C03 Model.C03dd "
            "Proofs.C03 Proofs.C03_relabel.\nOpen Scope Z_scope.\n")
 
 
@@ -434,7 +470,7 @@ def run(chk, cases):
     from quantarhei.builders.interactions import dipole_dipole_interaction
     from quantarhei.core.units import eps0_int
     import scipy.constants as const
-    groups = {"build": [], "perm": [], "units": [], "elsig": [], "dd": []}
+    groups = {"build": [], "perm": [], "units": [], "elsig": [], "dd": [], "ddm": []}
     for c in cases:
         kind = c["kind"]
         canon = json.dumps(c, sort_keys=True)
@@ -607,13 +643,66 @@ def run(chk, cases):
                             cm.qlit(val), cm.qlit(Fraction(1, 10 ** 12)))
                         groups["dd"].append((item, c))
                 chk.case(canon, True, sample=None)
+            elif kind == "ddm":
+                N = len(c["pos"])
+                mols = []
+                for k in range(N):
+                    m = qr.Molecule([0.0, 1.0])
+                    m.set_dipole((0, 1), c["dip"][k])
+                    m.position = numpy.array(c["pos"][k])
+                    mols.append(m)
+                agg = qr.Aggregate(mols)
+                agg.set_resonance_coupling_matrix([[float(x) for x in row] for row in c["J0"]])
+                chk.count("ddm:N=%d,delta=%g,via=%s" % (N, c["delta"], c["via"]))
+                if c["via"] == "set_coupling_by_dipole_dipole":
+                    agg.set_coupling_by_dipole_dipole(epsr=c["epsr"], delta=c["delta"])
+                else:
+                    agg.calculate_resonance_coupling(method="dipole-dipole", params=dict(epsr=c["epsr"]))
+                Jm = numpy.array(agg.resonance_coupling, dtype=float)
+                RRm = [[0.0] * N for _ in range(N)]
+                cl = [[False] * N for _ in range(N)]
+                refused = 0
+                for a in range(N):
+                    for b in range(N):
+                        Rv = numpy.array(c["pos"][a]) - numpy.array(c["pos"][b])
+                        RRm[a][b] = float(numpy.sqrt(numpy.dot(Rv, Rv)))
+                        cl[a][b] = bool(RRm[a][b] < c["delta"])
+                        refused += int(cl[a][b] and a < b)
+                chk.count("ddm:refused_pairs=%d" % min(refused, 3))
+                # the property on the outputs: symmetric, diagonal kept, point-dipole value with the requested permittivity
+                fr = lambda v: [Fraction(*float(x).as_integer_ratio()) for x in v]
+                dot = lambda u, v: sum(x * y for x, y in zip(u, v))
+                scale = max(1e-300, float(numpy.max(numpy.abs(Jm))))
+                for a in range(N):
+                    if Jm[a, a] != c["J0"][a][a]:
+                        chk.violation("ddm:diagonal", "%s changes the diagonal of the coupling matrix" % c["via"], "monitor", c)
+                    for b in range(a + 1, N):
+                        if Jm[a, b] != Jm[b, a]:
+                            chk.violation("ddm:symmetry", "%s stores an asymmetric coupling matrix" % c["via"], "monitor", c)
+                        if cl[a][b]:
+                            ref = Fraction(0)
+                        else:
+                            RRq = Fraction(*RRm[a][b].as_integer_ratio())
+                            n = [x / RRq for x in fr(numpy.array(c["pos"][a]) - numpy.array(c["pos"][b]))]
+                            ref = (dot(fr(c["dip"][a]), fr(c["dip"][b])) - 3 * dot(fr(c["dip"][a]), n) * dot(fr(c["dip"][b]), n)) / (
+                                4 * Fraction(*const.pi.as_integer_ratio()) * Fraction(*float(eps0_int).as_integer_ratio())
+                                * Fraction(*float(c["epsr"]).as_integer_ratio()) * RRq ** 3)
+                        if abs(float(ref) - Jm[a, b]) > 1e-12 * max(scale, abs(float(ref))):
+                            chk.violation("ddm:formula", "%s(epsr=%r, delta=%r): coupling of molecules %d and %d is %r, the point-dipole value with "
+                                          "that permittivity is %r" % (c["via"], c["epsr"], c["delta"], a, b, float(Jm[a, b]), float(ref)), "monitor", c)
+                item = "(%d%%nat, %s, %s, %s, %s, %s, %s, %s, %s, %s, %s)" % (
+                    N, qmatl(c["pos"]), qmatl(c["dip"]), qmatl(RRm), cm.clist([cm.clist(["true" if x else "false" for x in row]) for row in cl]),
+                    cm.qlit(const.pi), cm.qlit(float(eps0_int)), cm.qlit(c["epsr"]), qmatl(c["J0"]), qmatl(Jm),
+                    cm.qlit(Fraction(1, 10 ** 12) * Fraction(*scale.as_integer_ratio())))
+                groups["ddm"].append((item, c))
+                chk.case(canon, c["epsr"] != 1.0 or refused > 0)
         except Exception as e:
             import traceback
             chk.violation("%s:exception" % kind, "case %s raised %r (%s)" % (canon[:300], e, traceback.format_exc().splitlines()[-3:]), "monitor", c)
             chk.case(canon, False)
     # ---- correspondence inside Coq
     defs = {"build": (BUILD_DEF, "build_agrees", 6), "perm": (PERM_DEF, "perm_agrees", 8), "units": (UNITS_DEF, "units_agrees", 8),
-            "elsig": (ELSIG_DEF, "elsig_agrees", 40), "dd": (DD_DEF, "dd_agrees", 40)}
+            "elsig": (ELSIG_DEF, "elsig_agrees", 40), "dd": (DD_DEF, "dd_agrees", 40), "ddm": (DDM_DEF, "ddm_agrees", 12)}
     shards, index = [], []
     for kind, items in groups.items():
         d, fn, per = defs[kind]
@@ -670,6 +759,8 @@ CORPUS = [
      "jmode": "pairs", "asym": False, "unit_in": "1/cm", "unit_build": "eV"},
     {"kind": "dd", "pos": [[0.0, 0.0, 0.0], [5.0, 0.0, 0.0]], "dip": [[1.0, 0.0, 0.0], [1.0, 0.0, 0.0]], "epsr": 1.0, "unit": "1/cm"},
     {"kind": "elsig", "omax": [2, 1, 2], "mult": 2, "mode": "LQ"},
+    {"kind": "ddm", "pos": [[0.0, 0.0, 0.0], [5.0, 0.0, 0.0], [5.0, 1.0, 0.0]], "dip": [[1.0, 0.0, 0.0], [1.0, 2.0, 0.0], [0.0, 1.0, 1.0]],
+     "epsr": 2.0, "delta": 2.0, "J0": [[1.0, 3.0, 4.0], [3.0, -2.0, 5.0], [4.0, 5.0, 7.0]], "via": "set_coupling_by_dipole_dipole"},
 ]
 
 
@@ -690,12 +781,14 @@ def main():
                        "(mu0 is no longer exactly 4 pi 1e-7 in CODATA 2018), not proved"]
     chk.notes.append("exact comparison (=) for integer cases; 1e-12 relative for unit-context cases and dipole-dipole values")
     chk.prove()
+    import translate
+    translate.static_tie(cm, chk, PID, cm.REPO)      # second, static tie: model regenerated from the current source
     if args.replay:
         rep = json.load(open(args.replay))
         inp = rep.get("input")
         if isinstance(inp, dict) and inp.get("kind") == "prefactor":
             prefactor_validation(chk)
-        elif isinstance(inp, dict) and inp.get("kind") in ("build", "perm", "units", "elsig", "dd"):
+        elif isinstance(inp, dict) and inp.get("kind") in ("build", "perm", "units", "elsig", "dd", "ddm"):
             run(chk, [inp])
     else:
         r = cm.rng(PID)
@@ -706,6 +799,7 @@ def main():
         cases += [gen_units(r, k, args.tier) for k in range(16 if quick else 160)]
         cases += [gen_elsig(r, k, args.tier) for k in range(60 if quick else 600)]
         cases += [gen_dd(r, k, args.tier) for k in range(20 if quick else 200)]
+        cases += [gen_ddm(r, k, args.tier) for k in range(24 if quick else 240)]
         # three-level molecules: state enumeration of real builds
         for k in range(4 if quick else 40):
             N = r.choice([2, 3, 4])
